@@ -10,6 +10,9 @@ one) and on the abstract store (`S3V.StoreSpec.step`; SPECFAIL when the real ans
 After a step the store disagrees with, the judging store is resynchronised from the model state (`abs`), so
 one deviation is counted once. A history gets the class of its highest-priority deviation (unexpected
 classes first, pervasive ones last); the detail column lists every deviation with its step.
+When the real answer differs from the model's and the model's answer is the store's, the code deviates from both:
+the history is a failing input in its own right (SPECFAIL, class `unexpected:<class of the deviation>` — a repaired
+deviation that came back, or a new one; the prefix keeps it apart from every listed open finding).
 -/
 open S3V S3V.FsStore S3V.StoreSpec
 
@@ -478,12 +481,42 @@ def outsideDomain (sp : Store) (op : Op) : Bool :=
   | .completeMultipartUpload _ b k .. => clash b k
   | _ => false
 
+def allErrs : List Err :=
+  [.InvalidBucketName, .InvalidArgument, .BucketAlreadyExists, .NoSuchBucket, .NoSuchKey, .InternalError, .InvalidRange,
+   .IncompleteBody, .UnexpectedContent, .BadDigest, .InvalidRequest, .AccessDenied, .InvalidPart, .EntityTooSmall,
+   .NotImplemented, .InvalidStorageClass, .NoSuchUpload, .BucketNotEmpty, .MalformedXML, .InvalidPartOrder]
+
+/-- the kind of answer the implementation gave (error code, or the success form of the operation with empty members):
+    enough for `classify` to name a deviation the model does not predict -/
+def implShape (op : Op) (out : String) : Resp :=
+  if out = "PANIC" then .panic
+  else if out.startsWith "E." then
+    match allErrs.find? fun e => out = "E." ++ e.name || out.startsWith ("E." ++ e.name ++ ":") with
+    | some e => .err e
+    | none => .unmodelled
+  else match op with
+    | .listBuckets => .buckets []
+    | .putObject .. => .put none {}
+    | .getObject .. => .get [] 0 none none [] {}
+    | .headObject .. => .head 0 none []
+    | .deleteObjects .. => .deleted []
+    | .copyObject .. => .copied none
+    | .listObjectsV2 .. => .listed [] 0 false []
+    | .listObjects .. => .listed [] 0 false []
+    | .createMultipartUpload .. => .created 0
+    | .uploadPart .. => .part none
+    | .uploadPartCopy .. => .part none
+    | .listParts .. => .parts []
+    | .completeMultipartUpload .. => .completed none
+    | _ => .ok
+
 structure Acc where
   st : State := {}
   sp : Store := {}
   tn : Taints := {}
   k : Nat := 0
   bad : Option String := none     -- first model/implementation difference
+  unexpected : Option String := none   -- … on which the model's answer is the store's: class and detail
   unm : Bool := false
   okOps : Nat := 0
   errOps : Nat := 0
@@ -514,7 +547,14 @@ def replay (dirLen : Nat) (ops : List Op) (outs : List String) : Acc :=
           | .get _ _ (some _) _ _ _ => { a with sawRanged := true }
           | .listed (_ :: _) _ _ _ => { a with sawList := true }
           | _ => a
-        if m ≠ i then { a with bad := some s!"step {k} {opName op}: model={m} impl={i}" }
+        if m ≠ i then
+          let a := { a with bad := some s!"step {k} {opName op}: model={m} impl={i}" }
+          -- the model no longer predicts the code; when its answer is the store's, the code deviates from both
+          let (_, e) := StoreSpec.step hashes a.sp op
+          if !outsideDomain a.sp op && renderFor op e = m then
+            let (_, cls) := classify a.st a.sp a.tn op e (implShape op i)
+            { a with unexpected := some s!"unexpected:{cls} [step {k} {opName op}: the store and the model answer {(m.take 60).toString}, the implementation {(i.take 60).toString}]" }
+          else a
         else if outsideDomain a.sp op then
           -- not judged; the judging store follows the backend
           { a with st := s1, sp := abs s1, tn := {}, skipped := a.skipped + 1 }
@@ -549,7 +589,10 @@ def judge (fs : List String) : String :=
           let a := replay dirLen ops respFields
           if a.unm then s!"{id}\tUNMODELLED\tdirectory-read\t{a.bad.getD ""}"
           else match a.bad with
-            | some d => s!"{id}\tDISAGREE\t\t{d}"
+            | some d =>
+              match a.unexpected with
+              | some u => specfail id (clsOf u) u
+              | none => s!"{id}\tDISAGREE\t\t{d}"
             | none =>
               match a.fails.reverse with
               | [] =>
